@@ -53,14 +53,12 @@ def c18(run):
     r_allocnull.run(run, P)
     run.min_instances('R-ALLOC-NULL', 150)
     from rules import r_ownpdu
-    r_ownpdu.run(run, P)
+    Apdu = r_ownpdu.run(run, P)
     from rules import r_shallow
     r_shallow.run(run, P)
     from rules import r_ownlocal, r_holder
-    A = r_ownlocal.run(run, P, only={'-'})      # creators only (the ownership obligations of these types are C12's)
-    if 'R-OWN-LOCAL' in run.rules and not run.instances['R-OWN-LOCAL']:
-        run.rules.remove('R-OWN-LOCAL')
-    r_holder.run(run, P, A.spec.creators)
+    A = r_ownlocal.run(run, P)      # strings / binaries / optlists / cache keys created in a function: released on every path, error paths included
+    r_holder.run(run, P, set(A.spec.creators) | set(Apdu.spec.creators))
     run.assumptions = ASSUME_COMMON + ["every allocation funnels through coap_malloc_type/coap_realloc_type/malloc/calloc/realloc/strdup",
                                        "'the next operation succeeds' is NOT decided"]
     return run.finish(
@@ -68,7 +66,8 @@ def c18(run):
         "handed to a callee that dereferences it (R-ALLOC-NULL); PDUs are consumed exactly once on every path including error paths "
         "(R-OWN-PDU); after a shallow struct copy no destructor that frees a still-aliased owned field of the copy is called before that field was "
         "given its own buffer (R-SHALLOW-ALIAS); a record allocated in a function is not released with the raw allocator call while fields of it still "
-        "hold objects created on that path (R-HOLDER-LEAK). Necessary for 'allocation failure is survived without crash or leak'.")
+        "hold objects created on that path (R-HOLDER-LEAK); strings, binaries, option lists and cache keys created in a function are released, stored, returned or handed "
+        "on on every path, error paths included (R-OWN-LOCAL). Necessary for 'allocation failure is survived without crash or leak'.")
 
 
 def c12(run):
